@@ -20,6 +20,13 @@ RULE = (
     "insertion order, representation)."
 )
 TRUSTED = [
+    "translator tie (theorems C19_code_* of Properties/C19Code.lean, only when translator_tie is ok): "
+    "harness/translate_py.py translates toposort / _toposort_all_bt / toposort_all of utils/toposort.py on every run "
+    "(dicts as association lists in insertion order with KeyError, sets as lists whose iteration order is an explicit "
+    "parameter, deque as a list, state-passing for the mutated in-degree dict, declared fuels) into "
+    "Generated/TopoPy.lean; generated toposort is proved equal to the model's, generated toposort_all is proved FOR "
+    "EVERY SET ORDER to return exactly the topological orderings once each; preludes Model/PyRt.lean, PyRtColl.lean; "
+    "for these theorems the hand-written Toposort model is not trusted",
     "model: lean/SRVerif/Model/Toposort.lean (deque/set/dict as lists; set iteration order of `starts` is the "
     "list order of the model, the code's is hash order: results are compared as sorted lists)",
     "spec: lean/SRVerif/Spec/Toposort.lean IsTopo (also evaluated by the driver op c19_is_topo on the "
@@ -27,6 +34,9 @@ TRUSTED = [
     "the Python permutation filter used as oracle (itertools.permutations + index comparison)",
 ]
 ASSUMPTIONS = [
+    "translator tie: the keys of the dict handed in are pairwise different; hashing is not modelled; the iteration "
+    "order of a set is a function of its elements in insertion order (every such function is covered; a dependence "
+    "of CPython's order on entries deleted earlier is not)",
     "graphs are well-formed: distinct hashable nodes, successor collections without repetition, every "
     "successor is a key (otherwise the code raises KeyError: malformed stream)",
     "find_cycle is not part of this property",
